@@ -209,7 +209,22 @@ def run_once(gen, tl, trigger, reinit=False, pending=4, double=False, idle=1000.
             out["sd_start_it"] = loop.iteration
             log.add("API.call", name="shutdown")
             try:
-                if double == "overlap" and ("at" in ctx or "sock" in ctx):
+                if double == "cancelled_first" and ("at" in ctx or "sock" in ctx):
+                    # the application cancels its own shutdown() half-way (a time-out around
+                    # it) and calls it again: after that second call everything holds
+                    fn = ctx["at"].shutdown if "at" in ctx else ctx["sock"].close
+                    first = loop.create_task(fn())
+                    mine.add(first)
+                    for _ in range(1 + out["sd_start_it"] % 12):
+                        await asyncio.sleep(0)
+                    first.cancel()
+                    try:
+                        await first
+                    except BaseException:  # noqa: BLE001
+                        pass
+                    await fn()
+                    out["shutdown_cancelled_and_repeated"] = True
+                elif double == "overlap" and ("at" in ctx or "sock" in ctx):
                     # two callers at (almost) the same time: this one starts a loop turn
                     # after the other - and what holds after shutdown() returns holds for
                     # each of them
@@ -433,7 +448,7 @@ def cases(tier, seed):
                 # (the idle time between shutdown and the re-init: long, or short enough for
                 # anything the old life still held to be unexpired)
                 yield {"gen": gen, "tl": tl, "trigs": trigs[i:i + 12],
-                       "reinit": (i // 12) % 3 != 1, "double": {1: "overlap", 3: True}.get((i // 12) % 4, False),
+                       "reinit": (i // 12) % 3 != 1, "double": {1: "overlap", 3: True, 2: "cancelled_first"}.get((i // 12) % 4, False),
                        "idle": 1000.0 if (i // 12) % 2 else 0.5,
                        # shutdown awaited from the clean-up of a cancelled application task
                        "via_cancel": (i // 12) % 5 == 2}
@@ -514,6 +529,8 @@ def judge(gen, tl, trig, o, reinit):
         obs["census_at_return_empty"] = 1
         if o.get("overlapping_shutdowns"):
             obs["overlapping_shutdown_calls"] = 1
+        if o.get("shutdown_cancelled_and_repeated"):
+            obs["shutdown_cancelled_and_repeated"] = 1
     if o.get("now_unknown"):
         obs["unattributed_timers_at_return"] = len(o["now_unknown"])
     if o["send_after"] != "NotOpenError":
